@@ -4,5 +4,6 @@ CONSTANTS
   Mode = "nested"
   Depth = 3
   DeepAll = TRUE
+  FinRule = "fixpoint"
 INVARIANT GenInv
 CHECK_DEADLOCK FALSE
